@@ -5613,6 +5613,9 @@ class Scen:
                    else [self.series])
         for i in indices:
             self.ambset.sup_constr[i] = tuple(args)
+        self.ambset.update = True
+        self.ambset.model.pupdate = True
+        self.ambset.model.dupdate = True
 
     def exptset(self, *args):
         """
@@ -5647,6 +5650,9 @@ class Scen:
         else:
             indices = self.series
         self.ambset.exp_constr_indices.append(list(indices))
+        self.ambset.update = True
+        self.ambset.model.pupdate = True
+        self.ambset.model.dupdate = True
 
 
 class ScenLoc:
